@@ -44,7 +44,7 @@ def mis(Gl, Gr, q, shape=None):
     q = np.asarray(q, float)
     if shape is not None:
         q = q.reshape(tuple(shape) + (4,))
-    return Misorientation(q, symmetry=(Gl, Gr))
+    return Misorientation(common.relayout(q, int(abs(float(q.reshape(-1)[0])) * 1e6) if q.size else 0), symmetry=(Gl, Gr))
 
 
 def reduce_call(M, c):
